@@ -23,11 +23,15 @@ CONSTANTS SNames,      \* label names stored series may carry
           SlotSets,    \* possible slot sets of a series
           Ranges,      \* request time ranges <<mint, maxt>>
           TwoBlocks,   \* TRUE: the bucket holds a second block with other external labels
-          W            \* slot width
+          W,           \* slot width
+          KindSet,     \* store kinds to explore: tsdb, bucket, proxy, prom (sidecar), recv (receiver)
+          PromOpts,    \* option records explored for the sidecar (SkipChunks, sampled read, old label calls)
+          TLabel,      \* tenant label name of the receiver (collides with external / replica labels)
+          TenantIds    \* tenant ids of the receiver; every tenant holds the head's series
 
-VARIABLES kind, head, blocks, req,     \* the case (never change)
+VARIABLES kind, opt, head, blocks, req,     \* the case (never change)
           pc, series, names, values    \* progress and the answers of the three calls
-vars == <<kind, head, blocks, req, pc, series, names, values>>
+vars == <<kind, opt, head, blocks, req, pc, series, names, values>>
 
 (* values the .cfg files cannot write (tuples): substituted with `X <- Name` *)
 MC_Alts == { <<"x", "e">>, <<"x", "">> }
@@ -38,6 +42,12 @@ MC_Ranges == { <<0, 2 * W>>,                               \* everything
                <<ChunkMax(W, 0), ChunkMax(W, 0)>>,          \* the last sample of slot 0
                <<ChunkMax(W, 0) + 1, ChunkMin(W, 1) - 1>>,  \* between the chunks of slots 0 and 1
                <<ChunkMin(W, 1), 2 * W>> }                  \* from the first sample of slot 1
+
+NoOpt == [skip |-> FALSE, samples |-> FALSE, pmatch |-> TRUE]
+MC_PromOptsAll == { [skip |-> sk, samples |-> sa, pmatch |-> pm] : sk \in BOOLEAN, sa \in BOOLEAN, pm \in BOOLEAN }
+MC_PromOptsFew == { [skip |-> TRUE, samples |-> FALSE, pmatch |-> TRUE],       \* SkipChunks through /series
+                    [skip |-> FALSE, samples |-> FALSE, pmatch |-> TRUE],      \* streamed read, label calls with matchers
+                    [skip |-> FALSE, samples |-> TRUE, pmatch |-> FALSE] }     \* sampled read, label calls through /series
 
 (* ---------------- universe ---------------- *)
 LabelMaps(ns, vs) == UNION { [d -> vs] : d \in SUBSET ns }
@@ -50,13 +60,18 @@ Matchers ==
     \cup { [n |-> n, t |-> t, k |-> "set", alts |-> a] : n \in MNames, t \in {"RE", "NRE"}, a \in AltSeqs }
     \cup { [n |-> n, t |-> t, k |-> kk, alts |-> <<>>] : n \in MNames, t \in {"RE", "NRE"}, kk \in {"any", "nonempty"} }
 MatcherSets == UpTo(Matchers, MaxMatchers)
-AllNames == SNames \cup ENames \cup RNames \cup MNames
+AllNames == SNames \cup ENames \cup RNames \cup MNames \cup {TLabel}
 
 (* all placements of slot sets on a set of label sets *)
 Placed(ss) == { { [l |-> ls, slots |-> f[ls]] : ls \in ss } : f \in [ss -> SlotSets] }
 
+(* the world as the entry points of StoreAPIs take it; receiver tenants all hold the head's series *)
+Tenants == { [ext |-> TenantExt(head.ext, TLabel, id), series |-> head.series] : id \in TenantIds }
+WD == [W |-> W, head |-> head, blocks |-> blocks, tenants |-> Tenants]
+
 Init ==
-    /\ kind \in {"tsdb", "bucket", "proxy"}
+    /\ kind \in KindSet
+    /\ opt \in (IF kind = "prom" THEN PromOpts ELSE {NoOpt})
     /\ \E ss \in SeriesSets, e \in ExtLsets :
          /\ head \in { [ext |-> e, series |-> p] : p \in Placed(ss) }
          /\ IF TwoBlocks
@@ -69,19 +84,19 @@ Init ==
 
 (* ---------------- one action per API call (algorithm level) ---------------- *)
 CallSeries == /\ pc = "series"
-              /\ series' = AlgoSeries(kind, W, head, blocks, req)
-              /\ pc' = "names" /\ UNCHANGED <<kind, head, blocks, req, names, values>>
+              /\ series' = AlgoSeriesW(kind, WD, req, opt)
+              /\ pc' = "names" /\ UNCHANGED <<kind, opt, head, blocks, req, names, values>>
 CallLabelNames == /\ pc = "names"
-                  /\ names' = AlgoNames(kind, W, head, blocks, req)
-                  /\ pc' = "values" /\ UNCHANGED <<kind, head, blocks, req, series, values>>
+                  /\ names' = AlgoNamesW(kind, WD, req, opt)
+                  /\ pc' = "values" /\ UNCHANGED <<kind, opt, head, blocks, req, series, values>>
 CallLabelValues == /\ pc = "values"
-                   /\ values' = [ n \in AllNames |-> AlgoValues(kind, W, head, blocks, req, n) ]
-                   /\ pc' = "done" /\ UNCHANGED <<kind, head, blocks, req, series, names>>
+                   /\ values' = [ n \in AllNames |-> AlgoValuesW(kind, WD, req, n, opt) ]
+                   /\ pc' = "done" /\ UNCHANGED <<kind, opt, head, blocks, req, series, names>>
 Next == CallSeries \/ CallLabelNames \/ CallLabelValues
 Spec == Init /\ [][Next]_vars
 
 (* ---------------- the properties, stated with the PROPERTY-level operators ---------------- *)
-Srcs == Sources(kind, head, blocks)
+Srcs == SourcesW(kind, WD)
 (* C08 sentence 1: every returned label set is a stored one overridden by the external labels,  *)
 (* minus the replica labels                                                                      *)
 C08_ExtLabelsOverride == pc # "series" => \A ls \in series.out : ls \in C08Presentable(Srcs, req.rl)
@@ -93,7 +108,9 @@ C08_AllContradictedNothing ==
 C08_PresentRefines ==
     \A s \in head.series : AlgoPresent(s.l, head.ext, req.rl) = Present(s.l, head.ext, req.rl)
 (* C07: names and values of every returned series are covered by the label APIs                  *)
-C07_Covered == pc = "done" => C07Covered(series.out, names, values)
+(* (the sidecar's label calls are refused by Prometheus for selector sets matching the empty label *)
+(* set; a refused call gives no answer, see C07Trace)                                              *)
+C07_Covered == pc = "done" /\ ~(kind = "prom" /\ PromRefuses(req.ms, head.ext)) => C07Covered(series.out, names, values)
 (* replica labels never show up on series (so C07 never has to look for them)                    *)
 C07_ReplicaLabelsDropped == pc # "series" => \A ls \in series.out : DOMAIN ls \cap req.rl = {}
 
